@@ -1,0 +1,12 @@
+//go:build verif
+
+package pop3
+
+import "net"
+
+// VerifServe runs one POP3 session on conn, exactly as the accept loop does (session
+// registered with the server's WaitGroup), and returns when the session has ended.
+func (s *Server) VerifServe(id int, conn net.Conn) {
+	s.wg.Add(1)
+	s.startSession(id, conn)
+}
